@@ -1,5 +1,25 @@
 """Oracles shared by the E1 properties."""
+import copy
+
 from . import ref as ref_mod
+from ..common import digest
+
+
+def again(prog, env, **kw):
+    """The same program once more on the same thread with nothing reset in between: whatever a computation leaves in
+    the scheduler, in task or batch classes or in module state must not change what the next one does.  None when
+    the first run was aborted or left requests pending (asynq may flush those during the next computation), and
+    for half of the programs (cost)."""
+    from . import engine
+    if env.outcome[0] == "escaped" or int(digest(prog)[-1], 16) % 2:
+        return None
+    if any(b.items and not b.is_flushed() for b in env.batches):
+        return None
+    return engine.run_program(copy.deepcopy(prog), reset=False, **kw)
+
+
+def second(viol):
+    return [(c, m + "   [second run of the program on the same scheduler, nothing reset in between]") for c, m in viol]
 
 
 def reference(prog, env):
